@@ -5,6 +5,9 @@
     (every diagram is sent as an `mk`-expression with explicit boxes/offsets; the layers are
      recomputed by the scanning constructor)
     ntrace <left> <fuel> <expr d>  -> "ok <finished 0|1> <k> <diagram>*k"  (the model's own trace)
+    nfrepeat <left> <fuel> <expr d> -> "ok fin=<0|1> steps=<k> repeat=<index of the first step == to
+        an earlier step | none> input_again=<index of the first step == to the input | none>"
+        (what the cache of normal_form sees on the model's trace of <fuel> passes)
     strace / snake : the same two commands for rigid snake removal (rewriting.py:333-443)
 -/
 import Driver.Codec
@@ -44,6 +47,19 @@ def handle (cmd : String) (rest : List String) : Option String :=
           match normalizeTrace l f d0 [] with
           | .error e => "err " ++ toString e
           | .ok (steps, fin) => s!"ok {if fin then 1 else 0} {pList pDiagram steps}"
+  | "nfrepeat" =>
+    some <| match ((do let l ← bool; let f ← nat; let d ← expr; pure (l, f, d)) : P _).run rest with
+      | .error m => "bad " ++ m
+      | .ok ((l, f, d), _) =>
+        match d.eval with
+        | .error e => "err " ++ toString e
+        | .ok d0 =>
+          match normalizeTrace l f d0 [] with
+          | .error e => "err " ++ toString e
+          | .ok (steps, fin) =>
+            let rep := match firstRepeat [] steps 0 with | some k => toString k | none => "none"
+            let back := match steps.findIdx? (fun s => s.eqv d0) with | some k => toString k | none => "none"
+            s!"ok fin={if fin then 1 else 0} steps={steps.length} repeat={rep} input_again={back}"
   | "strace" =>
     some <| match ((do let l ← bool; let d ← expr; let ss ← many expr; pure (l, d, ss)) : P _).run rest with
       | .error m => "bad " ++ m
